@@ -653,6 +653,83 @@ def fam_getitem_numpy(rng):
     return Case("getitem %s %s" % (slice_tokens(items), lay.tokens()), expect_value(ref, what, cmp=L.same), {"value": vals})
 
 
+PROMOTE_ORDER = ["bool", "int8", "uint8", "int16", "uint16", "int32", "uint32", "int64", "uint64", "float32", "float64"]
+
+
+def _retype_leaf(T, dtype):
+    if T[0] == "num":
+        return ("num", dtype)
+    if T[0] in ("list", "option"):
+        return (T[0], _retype_leaf(T[1], dtype))
+    if T[0] == "regular":
+        return ("regular", _retype_leaf(T[1], dtype), T[2])
+    return T
+
+
+def fam_concat(rng):
+    """C08: concatenation along axis 0 (composed as ak.concatenate does: mergeable / mergemany / merge_as_union /
+    simplify) yields the elements of the first array followed by those of the others, each unchanged as a value;
+    numeric leaves are promoted as numpy.concatenate promotes them"""
+    import numpy as np
+    k = rng.randint(2, 3)
+    mode = rng.choice(["same", "same", "numeric", "numeric", "different"])
+    T0 = gen_pure(rng, rng.randint(0, 2), regular=0.15, leafrec=0.0 if mode == "numeric" else 0.15)
+    Ts = [T0]
+    for _ in range(k - 1):
+        if mode == "same":
+            Ts.append(T0)
+        elif mode == "numeric":
+            Ts.append(_retype_leaf(T0, rng.choice(LEAF_ALL)))
+        else:
+            Ts.append(gen_pure(rng, rng.randint(0, 2), regular=0.15, leafrec=0.15))
+    arrays, lays = [], []
+    for T in Ts:
+        vals = [L.gen_value(rng, T) for _ in range(rng.randint(0, 3))]
+        arrays.append(vals)
+        lays.append(L.Enc(rng, allow_indexed=False).encode(vals, T))      # KF-C08-merge-option-with-indexed
+    ref = [v for a in arrays for v in a]
+    mergebool = rng.random() < 0.5
+    what = "concatenate(%r)" % (arrays,)
+    leafs = []
+    for T in Ts:
+        t = T
+        while t[0] in ("list", "regular", "option"):
+            t = t[1]
+        leafs.append(t[1] if t[0] == "num" else None)
+    want_dtype = None
+    if k == 2 and mode == "numeric" and all(l is not None for l in leafs) and struct_depth(T0) == 1 and T0[0] == "num":
+        nonbool = [l for l in leafs if l != "bool"]
+        if (len(nonbool) == len(leafs)) or (mergebool and nonbool):
+            want_dtype = str(np.result_type(*[np.dtype(l) for l in leafs]))
+        elif not nonbool:
+            want_dtype = "bool"
+    inner = expect_value(ref, what, cmp=loose)
+
+    def check(r):
+        bad = inner(r)
+        if bad:
+            return bad
+        if want_dtype is not None and r.extra.startswith("NumpyArray:") and r.extra != "NumpyArray:" + want_dtype:
+            return ("value", "%s: result dtype %s, numpy.concatenate promotes %r to %s" % (what, r.extra, leafs, want_dtype))
+        return None
+    return Case("concat 1 %d %d %s" % (mergebool, k, " ".join(l.tokens() for l in lays)), check, {"value": arrays})
+
+
+def fam_fillna(rng):
+    """C09: fill_none replaces exactly the None values at the top level by the given value and changes nothing else;
+    is_none (bytemask) is True exactly at the None positions"""
+    T = gen_pure(rng, rng.randint(0, 2), regular=0.15, optleaf=0.3)
+    T = ("option", T[1] if T[0] == "option" else T)
+    vals = [L.gen_value(rng, T) for _ in range(rng.randint(0, 5))]
+    lay = L.Enc(rng).encode(vals, T)
+    if isinstance(lay, (L.IX, L.UM)):      # UM: KF-C09-fillna-unmasked-recurses
+        return None
+    fill = L.gen_value(rng, T[1], none_p=0.0)
+    fl = L.Enc(rng, style="canonical").encode([fill], T[1])
+    ref = [fill if v is None else v for v in vals]
+    return Case("fillna %s %s" % (fl.tokens(), lay.tokens()), expect_value(ref, "fill_none(%r, %r)" % (vals, fill)), {"value": vals})
+
+
 def fam_convert(rng):
     """C02/C09: conversions among encodings keep the value: toListOffsetArray64, toRegularArray, option-encoding
     conversions, simplify_optiontype, shallow_simplify, deep_copy, project (drops exactly the missing values), bytemask"""
@@ -685,6 +762,284 @@ def fam_convert(rng):
     return Case("%s %s" % (op, lay.tokens()), expect_value(ref, "%s of %r" % (what, vals), cmp=(loose if what == "bytemask" else L.same)), {"value": vals})
 
 
+def _nodes(lay, acc=None):
+    acc = [] if acc is None else acc
+    acc.append(lay)
+    for c in ([lay.content] if hasattr(lay, "content") else []) + list(getattr(lay, "contents", [])):
+        _nodes(c, acc)
+    return acc
+
+
+def _mutate_invalid(rng, lay):
+    """break one documented structural rule at one node (in place); returns a description or None"""
+    nodes = _nodes(lay)
+    rng.shuffle(nodes)
+    for nd in nodes:
+        if isinstance(nd, L.LO) and len(nd.offsets) >= 2:
+            k = rng.random()
+            if k < 0.4:
+                i = rng.randrange(len(nd.offsets) - 1)
+                nd.offsets[i] = nd.offsets[i + 1] + rng.randint(1, 3)
+                return "offsets decrease"
+            if k < 0.8:
+                nd.offsets[-1] = nd.content.length() + rng.randint(1, 3)
+                return "last offset beyond the content"
+            nd.offsets[:] = []
+            return "empty offsets"
+        if isinstance(nd, L.LA) and len(nd.starts) >= 1:
+            i = rng.randrange(len(nd.starts))
+            k = rng.random()
+            if k < 0.35:
+                nd.starts[i] = nd.stops[i] + rng.randint(1, 2)
+                return "start > stop"
+            if k < 0.7:
+                nd.stops[i] = nd.content.length() + rng.randint(1, 3)
+                if nd.starts[i] == nd.stops[i]:
+                    nd.starts[i] = 0
+                return "stop beyond the content"
+            nd.stops.pop()
+            return "stops shorter than starts"
+        if isinstance(nd, (L.IX, L.IO)) and len(nd.index) >= 1:
+            i = rng.randrange(len(nd.index))
+            if isinstance(nd, L.IX) and rng.random() < 0.4:
+                nd.index[i] = -rng.randint(1, 3)
+                return "negative index in a non-option IndexedArray"
+            nd.index[i] = nd.content.length() + rng.randint(0, 2)
+            return "index beyond the content"
+        if isinstance(nd, L.BM) and len(nd.mask) >= 1:
+            nd.mask += [0] * (nd.content.length() - len(nd.mask) + rng.randint(1, 2))
+            return "content shorter than the mask"
+        if isinstance(nd, L.BT) and nd.len >= 1:
+            if rng.random() < 0.5:
+                nd.len = nd.content.length() + rng.randint(1, 2)
+                nd.mask += [0] * ((nd.len + 7) // 8 - len(nd.mask) + 1)
+                return "content shorter than the declared length"
+            nd.len = len(nd.mask) * 8 + rng.randint(1, 3)
+            return "mask shorter than the declared length"
+        if isinstance(nd, L.UN) and len(nd.tags) >= 1:
+            i = rng.randrange(len(nd.tags))
+            k = rng.random()
+            if k < 0.35:
+                nd.tags[i] = len(nd.contents) + rng.randint(0, 2)
+                return "tag out of range"
+            if k < 0.5:
+                nd.tags[i] = -1
+                return "negative tag"
+            if k < 0.85:
+                nd.index[i] = nd.contents[nd.tags[i]].length() + rng.randint(0, 2)
+                return "union index out of range"
+            nd.index.pop()
+            return "union index shorter than tags"
+        if isinstance(nd, L.RC) and nd.contents and nd.len >= 0:
+            nd.len = min(c.length() for c in nd.contents) + rng.randint(1, 3)
+            return "field shorter than the record array"
+        if isinstance(nd, L.RG) and rng.random() < 0.3:
+            nd.size = -rng.randint(1, 3)
+            return "negative size"
+        if isinstance(nd, (L.IO, L.BM, L.BT, L.UM, L.IX)) and rng.random() < 0.5:
+            inner = nd.content
+            n = inner.length()
+            wrap = rng.choice(["io", "um", "ix"])
+            if wrap == "io":
+                nd.content = L.IO("64", list(range(n)), inner)
+            elif wrap == "um":
+                nd.content = L.UM(inner)
+            else:
+                nd.content = L.IX("64", list(range(n)), inner)
+            return "option/indexed node directly inside an option/indexed node"
+    return None
+
+
+def _gen_invalid(rng):
+    for _ in range(20):
+        T = L.gen_type(rng, rng.randint(0, 3), allow_union=True)
+        vals = [L.gen_value(rng, T) for _ in range(rng.randint(1, 4))]
+        lay = L.Enc(rng).encode(vals, T)
+        what = _mutate_invalid(rng, lay)
+        if what is not None:
+            return lay, what
+    return None, None
+
+
+def fam_valid_reject(rng):
+    """C11 (no missed error): a layout that breaks one documented rule (offsets decreasing or beyond the content, index
+    or tag out of range, mask/content/field shorter than declared, option directly in option, negative size) is
+    reported; C12: the check itself never crashes on an invalid layout"""
+    lay, what = _gen_invalid(rng)
+    if lay is None:
+        return None
+    isvalid = L.valid(lay)
+
+    def check(r):
+        if r.status == "EXC" and not isvalid:
+            return None      # refused at construction: also a report
+        if r.status != "OK":
+            return ("value", "validity check %s (%s %s) on a layout with: %s" % (r.status, r.exc or "", r.msg[:200], what))
+        if isvalid and r.value != "":
+            return ("value", "validity check reports %r although the mutated layout (%s) still obeys every rule" % (r.extra[:200], what))
+        if not isvalid and r.value == "":
+            return ("value", "validity check reports nothing for a layout with: %s" % what)
+        return None
+    return Case("validity " + lay.tokens(), check, {"mutation": what})
+
+
+def fam_invalid_nocrash(rng):
+    """C12: reading (to_list), copying and measuring an INVALID layout never terminates the process or hangs: any
+    outcome but a crash is accepted"""
+    lay, what = _gen_invalid(rng)
+    if lay is None:
+        return None
+    op = rng.choice(["tolist", "tolist", "deep_copy", "purelist_depth"])
+
+    def check(r):
+        return None      # crashes and hangs are caught by the runner
+    return Case("%s %s" % (op, lay.tokens()), check, {"mutation": what})
+
+
+def _gen_pyvalue(rng, depth):
+    r = rng.random()
+    if depth <= 0 or r < 0.45:
+        k = rng.random()
+        if k < 0.15:
+            return None
+        if k < 0.3:
+            return rng.random() < 0.5
+        if k < 0.6:
+            return rng.randint(-5, 9)
+        if k < 0.8:
+            return rng.randint(-8, 8) / 2.0
+        return rng.choice(["a", "bc", "", "xyz"])
+    if r < 0.75:
+        return [_gen_pyvalue(rng, depth - 1) for _ in range(rng.randint(0, 3))]
+    if r < 0.92:
+        keys = [k for k in ["x", "y", "z"] if rng.random() < 0.6] or ["x"]
+        rng.shuffle(keys)
+        return {k: _gen_pyvalue(rng, depth - 1) for k in keys}
+    return tuple(_gen_pyvalue(rng, depth - 1) for _ in range(rng.randint(1, 2)))
+
+
+def _builder_cmds(v, out):
+    if v is None:
+        out.append("null")
+    elif isinstance(v, bool):
+        out.append("bool %d" % v)
+    elif isinstance(v, int):
+        out.append("int %d" % v)
+    elif isinstance(v, float):
+        out.append("real %r" % v)
+    elif isinstance(v, str):
+        out.append("str %s" % (v if v else "''"))
+    elif isinstance(v, list):
+        out.append("beginlist")
+        for e in v:
+            _builder_cmds(e, out)
+        out.append("endlist")
+    elif isinstance(v, dict):
+        out.append("beginrecord _")
+        for k, e in v.items():
+            out.append("field %s" % k)
+            _builder_cmds(e, out)
+        out.append("endrecord")
+    elif isinstance(v, tuple):
+        out.append("begintuple %d" % len(v))
+        for i, e in enumerate(v):
+            out.append("index %d" % i)
+            _builder_cmds(e, out)
+        out.append("endtuple")
+
+
+def builder_unify(values):
+    """what to_list shows for the values appended at one builder node, in order: records (unnamed) reached at the same
+    position share one record type with absent fields None, tuples of the same arity share one tuple type"""
+    out = list(values)
+    lists = [i for i, v in enumerate(values) if isinstance(v, list)]
+    if lists:
+        flat = [e for i in lists for e in values[i]]
+        uni = builder_unify(flat)
+        p = 0
+        for i in lists:
+            n = len(values[i])
+            out[i] = uni[p:p + n]
+            p += n
+    dicts = [i for i, v in enumerate(values) if isinstance(v, dict)]
+    if dicts:
+        keys = []
+        for i in dicts:
+            for k in values[i]:
+                if k not in keys:
+                    keys.append(k)
+        cols = {}
+        for k in keys:
+            have = [i for i in dicts if k in values[i]]
+            uni = builder_unify([values[i][k] for i in have])
+            cols[k] = dict(zip(have, uni))
+        for i in dicts:
+            out[i] = {k: cols[k].get(i) for k in keys}
+    arities = sorted({len(v) for v in values if isinstance(v, tuple)})
+    for a in arities:
+        tups = [i for i, v in enumerate(values) if isinstance(v, tuple) and len(v) == a]
+        cols = []
+        for j in range(a):
+            cols.append(builder_unify([values[i][j] for i in tups]))
+        for n, i in enumerate(tups):
+            out[i] = tuple(cols[j][n] for j in range(a))
+    return out
+
+
+def fam_builder(rng):
+    """C14: appending a well-nested sequence of values through ArrayBuilder yields an array whose to_list equals the
+    appended values up to the documented unification; every snapshot equals the values appended so far and never
+    changes afterwards; the length is the number of top-level values"""
+    vals = [_gen_pyvalue(rng, rng.randint(0, 3)) for _ in range(rng.randint(0, 6))]
+    cmds, snaps = [], []
+    for i, v in enumerate(vals):
+        if rng.random() < 0.25:
+            cmds.append("snap")
+            snaps.append(i)
+        _builder_cmds(v, cmds)
+    initial = rng.choice([1, 2, 8, 1024])
+    ref_final = builder_unify(vals)
+    ref_snaps = [builder_unify(vals[:i]) for i in snaps]
+
+    def check(r):
+        if r.status != "OK":
+            return ("value", "ArrayBuilder over %r: library %s (%s %s)" % (vals, r.status, r.exc or "", r.msg[:200]))
+        got_snaps, final, length, ferr = r.value
+        if ferr != "":
+            return ("validity", "the final snapshot of %r fails the validity check" % (vals,))
+        if length != len(vals):
+            return ("value", "ArrayBuilder length %r after appending %d values" % (length, len(vals)))
+        if not loose(final, ref_final):
+            return ("value", "ArrayBuilder over %r: final snapshot reads %r, the appended values (unified) are %r" % (vals, final, ref_final))
+        if len(got_snaps) != len(ref_snaps):
+            return ("value", "snapshot count")
+        for (first, again, verr), ref in zip(got_snaps, ref_snaps):
+            if not loose(first, ref):
+                return ("value", "snapshot after %d values reads %r, expected %r" % (len(ref), first, ref))
+            if not L.same(first, again):
+                return ("value", "a snapshot CHANGED after more data were appended: %r became %r" % (first, again))
+            if verr != "":
+                return ("validity", "a snapshot fails the validity check")
+        return None
+    return Case("builder %d %s" % (initial, " ".join(cmds)), check, {"value": vals})
+
+
+def fam_builder_malformed(rng):
+    """C14: a malformed call sequence (unbalanced end, field outside a record, index outside a tuple) raises an error"""
+    good = []
+    for v in [_gen_pyvalue(rng, 1) for _ in range(rng.randint(0, 2))]:
+        _builder_cmds(v, good)
+    bad = rng.choice(["endlist", "endrecord", "endtuple", "field x int 1", "index 0 int 1",
+                      "beginlist endrecord", "beginrecord _ endlist", "begintuple 2 index 2 int 1",
+                      "beginrecord _ int 1", "begintuple 1 int 1"])
+
+    def check(r):
+        if r.status == "EXC":
+            return None
+        return ("value", "malformed ArrayBuilder call sequence `%s` after %r did not raise: %s" % (bad, good, r))
+    return Case("builder 8 %s %s" % (" ".join(good), bad), check, {})
+
+
 # family -> (generator, properties whose statement the VALUE contract comes from)
 FAMILIES = {
     "reduce_ragged": (fam_reduce_ragged, ["C03"]),
@@ -700,10 +1055,16 @@ FAMILIES = {
     "flatten": (fam_flatten, ["C05"]),
     "localindex": (fam_localindex, ["C05"]),
     "rpad": (fam_rpad, ["C09"]),
+    "fillna": (fam_fillna, ["C09"]),
+    "concat": (fam_concat, ["C08"]),
     "combinations": (fam_combinations, ["C07"]),
     "sort": (fam_sort, ["C06"]),
     "argsort": (fam_argsort, ["C06"]),
     "valid_accept": (fam_valid_accept, ["C11"]),
+    "builder": (fam_builder, ["C14"]),
+    "builder_malformed": (fam_builder_malformed, ["C14"]),
+    "valid_reject": (fam_valid_reject, ["C11"]),
+    "invalid_nocrash": (fam_invalid_nocrash, ["C12"]),
 }
 CATEGORY_PROPS = {"validity": ["C11"], "purity": ["C12"], "crash": ["C12"]}
 
@@ -810,7 +1171,7 @@ def engine(pid, tier, seed, known, families=None):
         for k, (f, i, c) in enumerate(kc):
             r = res["kf%d_%d" % (k, i)]
             exp = eval(c["expect"], dict(nrun.ENV))
-            good = r.status == "OK" and loose(r.value, exp)
+            good = r.status == "OK" and loose(r.value, exp) and ("extra" not in c or r.extra == c["extra"])
             if not good:
                 oid = "N.known:%s#%d" % (f["id"], i)
                 out["obligations"].append({"id": oid, "unit": "known:" + f["id"], "kind": "N.known", "label": "bounded", "line": None,
